@@ -118,3 +118,9 @@ Record hgood (m : pmgr) (hc : hcache) (img : image) : Prop := {
   hg_sync : synced m img;
   hg_heads : heads_inv m hc
 }.
+
+(* what the next request's effect on the repos depends on: the repos and the three id counters *)
+Definition mcore (m : pmgr) : list (N * prepo) * N * N * N := (m_repos m, m_rid m, m_vid m, m_iid m).
+
+(* the server's configured first instance id never exceeds the counter (true at start-up, kept) *)
+Definition inst_ok (C : pconf) (m : pmgr) : Prop := c_inst_start C <= m_iid m.
